@@ -171,6 +171,12 @@ def run(ctx):
     c = frag_case("max", r, big, reqs, {"src": ip("10.0.0.1"), "dst": ip("10.0.0.2"), "id": 77}, False)
     c.gen["kind"] = "max-datagram"
     cases.append(c)
+    # the largest datagram, emitted whole and almost whole, framed and raw (the framed records are the longest the tool writes)
+    payload = bytes(r.getrandbits(8) for _ in range(65515))
+    c = frag_case("whole", r, payload, [("datagram",), ("tail", 1), ("fragment", 0, 8190), ("datagram",)],
+                  {"src": ip("10.0.0.1"), "dst": ip("10.0.0.2"), "id": 5}, None)
+    c.gen["kind"] = "max-datagram-whole"
+    cases.append(c)
     # tails of payloads of 8192 bytes and more (8 * length passes 2^16), and of payloads that are not a multiple of 8
     for j, (n, offs) in enumerate([(8200, [0, 1, 512, 1000]), (50000, [0, 3000, 6000]), (8192, [0, 1023]), (1203, [0, 1, 150]), (43, [0, 5])]):
         payload = bytes(r.getrandbits(8) for _ in range(n))
